@@ -422,6 +422,36 @@ class MaskEmu(Emu):
                 out = [out[0]] + a[1:4]
             self.put(d, out, vex)
             return
+        if base in ("blendvps", "pblendvb") and len(ops) == 4 and all(o.kind == "vec" for o in ops):
+            # d = sign bit of the selector lane ? second source : first source
+            d = ops[0]
+            a, b, sel = self.get(ops[1]), self.get(ops[2]), self.get(ops[3])
+            out = []
+            for p, q, s_ in zip(a, b, sel):
+                ms = _as_mask(s_)
+                if ms is None:
+                    sv = _as_value(s_)
+                    if sv is None:
+                        out.append(None)
+                        continue
+                    # the selector lane is a *value*, not a compare mask: its sign bit decides
+                    ms = Msk(_atom("sgn", sv))
+
+                def terms(v):
+                    if isinstance(v, Sel):
+                        return list(v.terms)
+                    vv = _as_value(v)
+                    if vv is None:
+                        return None
+                    return [] if vv == ZERO else [(sp.true, vv)]
+
+                tp, tq = terms(p), terms(q)
+                if tp is None or tq is None:
+                    out.append(None)
+                    continue
+                out.append(Sel([(sp.And(ms.b, g), v) for g, v in tq] + [(sp.And(sp.Not(ms.b), g), v) for g, v in tp]))
+            self.put(d, out, vex)
+            return
         mm = re.fullmatch(r"p?(xor|and|or|andn)(ps|pd|d|q)?", base or "")
         if mm and len(ops) in (2, 3) and all(o.kind == "vec" for o in ops):
             op = mm.group(1)
